@@ -16,6 +16,8 @@ import XalanModel.C04.DocReaderProofs9
 import XalanModel.C04.PrologProofs
 import XalanModel.C04.IndentTextProofs
 import XalanModel.C04.IndentTreeProofs
+import XalanModel.C04.Transcoder
+import XalanModel.C04.RawMarker
 /-!
 # C04 — XML output is well-formed and parses back to exactly the result tree
 
@@ -138,6 +140,89 @@ still buffered — one unit, then a 4-unit run, capacity 3: the run comes out fi
 theorem bulk_without_flush_counterexample :
     (Sink.run [.one 1, .bulk [2, 3, 4, 5]] (Sink.emptyF 3 false)).map (fun s => s.flush.chunks) = some [[2, 3, 4, 5], [1]] ∧
     (Sink.run [.one 1, .bulk [2, 3, 4, 5]] (Sink.emptyF 3 true)).map (fun s => s.flush.chunks) = some [[1], [2, 3, 4, 5], []] := by
+  decide
+
+/-! ## the transcoder behind the stream (stateful encodings) -/
+
+/-- **transcoding_chunked_eq_oneshot.** For every converter (any shift-state type, any step function), every sequence
+of `transcode(chunk)` calls with any number of `canTranscodeTo` probes anywhere in between, and every starting state:
+if the probes do not touch the converter's shift state — because they are answered by another converter object
+(`own = true`) or because this converter's probe is pure — the bytes written and the final state are those of one
+`transcode` call on the whole document.  Chunk boundaries (the 512-unit buffers) are then invisible in the bytes. -/
+theorem transcoding_chunked_eq_oneshot {σ : Type} (t : Transcoder σ) (own : Bool)
+    (h : own = true ∨ ∀ s c, t.probe s c = s) (ops : List TOp) (s : σ) :
+    t.runOps own s ops = t.run s (TOp.units ops) :=
+  Transcoder.runOps_eq_run t own h ops s
+
+/-- the working tree: if `XalanOutputStream::canTranscodeTo` asks a transcoder of its own (flag read by the translator),
+chunked transcoding equals one-shot transcoding for every converter, whatever its probe does -/
+theorem generated_probe_isolation (hp : probeOwnTranscoder = true) {σ : Type} (t : Transcoder σ) (ops : List TOp) (s : σ) :
+    t.runOps probeOwnTranscoder s ops = t.run s (TOp.units ops) :=
+  Transcoder.runOps_eq_run t _ (Or.inl hp) ops s
+
+/-- **probe_shared_converter_counterexample.** When the probe is answered by the converter that writes the document
+and leaves it reset (what Xerces' `ICUTranscoder::canTranscodeTo` does: `ucnv_fromUnicode(…, flush = true)` on the one
+converter), a two-state ISO-2022 style converter loses the escape sequence that returns to ASCII: a chunk ending in
+kana, a probe, a chunk starting with `b` — the `b` is written without `ESC ( B` and a decoder reads it in kana mode.
+With a converter of its own for the probe the bytes are those of the one-shot conversion. -/
+theorem probe_shared_converter_counterexample :
+    (iso2022.runOps false .ascii [.chunk [0x30A2], .probe 98, .chunk [98]]).2 = [27, 36, 66, 48, 34, 98] ∧
+    (iso2022.runOps true .ascii [.chunk [0x30A2], .probe 98, .chunk [98]]).2 = [27, 36, 66, 48, 34, 27, 40, 66, 98] ∧
+    (iso2022.run .ascii [0x30A2, 98]).2 = [27, 36, 66, 48, 34, 27, 40, 66, 98] := by decide
+
+/-! ## the raw-text marker -/
+
+/-- both `characters()` and `cdata()` of the working tree clear `m_nextIsRaw` when they honour it -/
+theorem generated_raw_resets : RawCfg.generated = RawCfg.intended := by decide
+
+/-- **raw_only_after_marker.** An event sequence without the marker PI is acted on as it is (no text is ever written
+unescaped by itself), for every variant of the reset logic. -/
+theorem raw_only_after_marker (k : RawCfg) (evs : List Event) (h : ∀ ev ∈ evs, ev.isMarker = false) :
+    resolveRaw k false evs = evs :=
+  resolveRaw_no_marker k evs h
+
+/-- **raw_marker_used_once.** With the resets in place: whatever the flag was, after a non-empty `characters` or `cdata`
+event it is clear — the event itself is raw exactly when the flag was set, and everything after it (containing no
+further marker) is acted on unchanged, i.e. escaped by `writeCharacters` / `writeCDATA` (`content_roundtrip`,
+`cdata_roundtrip`).  "Every text event not preceded by the marker round-trips." -/
+theorem raw_marker_used_once (f : Bool) (buf : List Nat) (len : Nat) (hl : len ≠ 0) (rest : List Event)
+    (h : ∀ ev ∈ rest, ev.isMarker = false) :
+    resolveRaw RawCfg.intended f (.characters buf len :: rest) =
+      (if f then .charactersRaw (buf.take len) else .characters buf len) :: rest ∧
+    resolveRaw RawCfg.intended f (.cdata buf len :: rest) =
+      (if f then .charactersRaw (buf.take len) else .cdata buf len) :: rest :=
+  resolveRaw_text_clears f buf len hl rest h
+
+/-- without the reset in `cdata()` the marker leaks: marker, CDATA `x`, then the ordinary text `<` — the `<` is written
+unescaped as well -/
+theorem raw_flag_not_reset_counterexample :
+    resolveRaw ⟨true, false⟩ false [.pi rawMarkerTarget rawMarkerData, .cdata [120, 0] 1, .characters [60, 0] 1]
+      = [.charactersRaw [120], .charactersRaw [60]] ∧
+    resolveRaw RawCfg.intended false [.pi rawMarkerTarget rawMarkerData, .cdata [120, 0] 1, .characters [60, 0] 1]
+      = [.charactersRaw [120], .characters [60, 0] 1] := by
+  constructor <;> simp [resolveRaw, isRawMarker, RawCfg.intended]
+
+/-! ## the maximum literal character of the legacy serializer -/
+
+/-- `XalanTranscodingServices::getMaximumCharacterValue(encoding)` on upper-case names -/
+def maxCharOf (name : String) : Nat :=
+  match maxCharTable.find? (fun p => p.1 == name) with
+  | some p => p.2
+  | none => maxCharDefault
+
+/-- is every scalar value up to `getMaximumCharacterValue(name)` representable in the encoding (by the repertoire the
+translator computed with an independent codec)? -/
+def maxCharSound (p : String × Nat) : Bool := decide (maxCharOf p.1 < p.2)
+
+/-- **max_char_within_repertoire.** For every encoding of the repertoire table (US-ASCII, UTF-8/16/32, KOI8-R,
+ISO-8859-1…16, windows-1250…1258) except Shift_JIS: the value below which `FormatterToXML` / `FormatterToHTML` hand
+characters to the transcoder unescaped is smaller than the first scalar value the encoding cannot represent. -/
+theorem max_char_within_repertoire :
+    (firstUnrepresentable.filter (fun p => p.1 != "SHIFT_JIS")).all maxCharSound = true := by decide
+
+/-- Shift_JIS is listed with 0xFFFF although U+0080 is already unrepresentable (known finding) -/
+theorem max_char_shift_jis_counterexample :
+    maxCharOf "SHIFT_JIS" = 65535 ∧ firstUnrepresentable.find? (fun p => p.1 == "SHIFT_JIS") = some ("SHIFT_JIS", 128) := by
   decide
 
 /-! ## encodings -/
